@@ -51,3 +51,34 @@ func RefCommitCheck(chainID string, vals *types.ValidatorSet, id types.BlockID, 
 	}
 	return nil
 }
+
+// RefCommitCheckStrict is RefCommitCheck plus what FULL validation of a block's LastCommit demands: every slot that is
+// not absent carries the address of the validator at its index and a signature of that validator that verifies for
+// what the slot's flag says (the block id, or nil).
+func RefCommitCheckStrict(chainID string, vals *types.ValidatorSet, id types.BlockID, height int64, c *types.Commit) error {
+	if err := RefCommitCheck(chainID, vals, id, height, c); err != nil {
+		return err
+	}
+	for i, v := range vals.Validators {
+		cs := c.Signatures[i]
+		var bid *BID
+		switch cs.BlockIDFlag {
+		case types.BlockIDFlagAbsent:
+			continue
+		case types.BlockIDFlagCommit:
+			bid = BIDOf(c.BlockID)
+		case types.BlockIDFlagNil:
+		default:
+			return fmt.Errorf("slot %d has unknown flag %d", i, cs.BlockIDFlag)
+		}
+		if string(cs.ValidatorAddress) != string(v.Address) {
+			return fmt.Errorf("slot %d names %X, the validator at that index is %X", i, cs.ValidatorAddress, v.Address)
+		}
+		msg := CanonVoteBytes(chainID, byte(tmproto.PrecommitType), c.Height, c.Round, bid, cs.Timestamp)
+		pub := v.PubKey.Bytes()
+		if len(pub) != stded.PublicKeySize || !stded.Verify(stded.PublicKey(pub), msg, cs.Signature) {
+			return fmt.Errorf("slot %d (flag %d) carries a signature that does not verify", i, cs.BlockIDFlag)
+		}
+	}
+	return nil
+}
